@@ -36,18 +36,21 @@ pub mod c05 {
     }
 
     macro_rules! wit {
-        ($name:ident, $w:expr, $t:expr) => {
+        ($name:ident, $w:expr, $t:expr, $u:expr) => {
             #[kani::proof]
-            #[kani::unwind(12)]
+            #[kani::unwind($u)]
             pub fn $name() {
                 witness::<$w, $t>();
             }
         };
     }
-    wit!(c05_witness_1x2, 1, 2);
-    wit!(c05_witness_2x2, 2, 2);
-    wit!(c05_witness_3x3, 3, 3);
-    wit!(c05_witness_4x4, 4, 4);
+    // unwinding bound = W + T + 2 loop iterations (unwinding assertions on: a matcher that needs more is reported undecided);
+    // a generous bound such as 12 makes even the 1x2 instance run for more than 15 minutes (measured)
+    wit!(c05_witness_1x2, 1, 2, 5);
+    wit!(c05_witness_2x2, 2, 2, 6);
+    wit!(c05_witness_2x3, 2, 3, 7);
+    wit!(c05_witness_3x3, 3, 3, 8);
+    wit!(c05_witness_4x4, 4, 4, 10);
 }
 
 /// Harnesses used only by `./selftest-kani` to pin down how the runner classifies Kani outcomes.
